@@ -366,6 +366,8 @@ impl Response {
                         /* capacity for a single line */
                         "data: ".len() + chunk.len() + "\n\n".len()
                     );
+                    /* CR and CRLF end a line of event stream as well as LF: a CR left in `data: ` line would cut or inject fields */
+                    let chunk = chunk.replace("\r\n", "\n").replace('\r', "\n");
                     for line in chunk.split('\n') {
                         message.extend_from_slice(b"data: ");
                         message.extend_from_slice(line.as_bytes());
